@@ -60,11 +60,25 @@ def comp_s(c) -> str:
     return "d:" + list_s([f"{k}={v}" for k, v in c.items()])
 
 
+HUGE = [2**31 - 1, 2**31, 2**31 + 1, 2**32 + 7, 2**53 - 3, 2**53 - 1, 2**53, 2**53 + 1, 2**53 + 3, 2**63 - 1, 2**63,
+        2**64, 2**64 + 1, 2**100, 2**100 + 12345, 10**30 + 7]
+
+
+def huge(rng: random.Random) -> int:
+    return rng.choice(HUGE) + rng.choice([0, 0, 1, -1, 3, 15, 16, 17, rng.randint(-1000, 1000)])
+
+
 def mk_gbox(rng: random.Random, h: int, w: int, GeoBox, allow_rot=True):
     from affine import Affine  # pylint: disable=import-outside-toplevel
 
     crs = rng.choice(["epsg:3857", "epsg:4326", "epsg:32755", "epsg:3577", "epsg:6933"])
-    if crs == "epsg:4326":
+    if rng.random() < 0.25:
+        # float stream: realistic non-dyadic doubles, origins a hair off integers / half-integers.  The file is
+        # compared with the GeoBox the writer sees (`xx.odc.geobox`), exactly.
+        res = rng.choice([30.000000001, 1 / 3, 0.1, 9.999999999, 25 + 1e-10, 2.5e-4, 0.00025, 1 / 3600, 12.3456789])
+        x0 = rng.randint(-1000, 1000) + rng.choice([0, 1e-6, -1e-9, 1e-10, -1e-11, 1e-13, 2.0**-40, 0.5 - 1e-9, 0.1])
+        y0 = rng.randint(-80, 80) + rng.choice([0, 1e-6, -1e-9, 1e-10, 2.0**-40, 0.5 + 1e-13, 1 / 3])
+    elif crs == "epsg:4326":
         res = rng.choice([0.25, 0.125, 1 / 1024, 0.00025])
         x0, y0 = rng.randint(-600, 500) * 0.25, rng.randint(-200, 300) * 0.25
     else:
@@ -102,8 +116,10 @@ def gen_cfg(rng: random.Random, big_ok: bool):
         side = lambda: rng.choice([1, 2, 3, 5, 15, 16, 17, 33, 64, 100, rng.randint(1, 300), rng.randint(1, 300)])
         h, w = side(), side()
         dt = rng.choice(DTYPES)
-    if np.dtype(dt).kind == "f":
-        nodata = rng.choice([None, None, -9999.0, float("nan"), 0.0])
+    if dt == "float64":
+        nodata = rng.choice([None, None, -9999.0, float("nan"), 0.0, 1.7976931348623157e308, 5e-324, -1e308])
+    elif dt == "float32":
+        nodata = rng.choice([None, None, -9999.0, float("nan"), 0.0, 3.4028234663852886e38, float(np.float32(1 / 3))])
     elif np.dtype(dt).kind == "u":
         nodata = rng.choice([None, None, 0, 255])
     else:
@@ -396,9 +412,10 @@ def run(R: Run):
         if not out.startswith("ERR"):
             bx, by = (int(v) for v in out.split(" ")[:2])
             bb = 512 if b is None else b
-            ok = bx % 16 == 0 and by % 16 == 0 and bx <= -(-bb // 16) * 16 and by <= -(-bb // 16) * 16
-            ok = ok and (not 0 < w < bb or w <= bx < w + 16) and (not 0 < h < bb or h <= by < h + 16)
-            R.oracle(ok, "block-not-mult16", {"blocksize": b, "w": w, "h": h}, out, trivial=True)
+            # exact, two-sided: the governing size (image side if 0 < side < block, else the block) rounded up to 16
+            want = tuple(-(-(d if 0 < d < bb else bb) // 16) * 16 for d in (w, h))
+            R.oracle((bx, by) == want, "block-not-mult16", {"blocksize": b, "w": w, "h": h}, f"{out}, exact rule {want}",
+                     trivial=sig != "opts|huge")
 
     for b in [None] + list(range(1, R.pick(40, 80))) + [100, 250, 256, 511, 512, 513, 1000]:
         for w in (0, 1, 15, 16, 17, 31, 33, 100, 511, 512, 513, 2000):
@@ -406,6 +423,9 @@ def run(R: Run):
                 opts_case(b, w, h, (w + h) % 2 == 0, "opts|" + ("none" if b is None else "mult16" if b % 16 == 0 else "odd"))
     for _ in range(R.pick(400, 4000)):
         opts_case(rng.choice([None, rng.randint(1, 3000)]), rng.randint(0, 5000), rng.randint(0, 5000), rng.random() < 0.5, "opts|random")
+    for _ in range(R.pick(400, 4000)):  # huge ints: a float detour in the rounding would show here
+        opts_case(rng.choice([None, huge(rng), rng.randint(1, 3000)]), rng.choice([huge(rng), rng.randint(0, 5000)]),
+                  rng.choice([huge(rng), rng.randint(0, 5000)]), rng.random() < 0.5, "opts|huge")
 
     # ---- band layout normalisation, through the real `_write_cog` (tiny images, memory)
     def layout_case(shape, g):
